@@ -297,7 +297,7 @@ def run_shard(u, shard, nshards, tier, seed, outdir):
             c["unit"] = u.name
             c["cmd"] = " ".join(cmd)
             recs.append(c)
-            if attempts >= 40:
+            if attempts >= 10:
                 errors.append("too many crashes in %s shard %d" % (u.name, shard))
                 break
             resume = int(c.get("n", 0))
